@@ -11,4 +11,4 @@ package schutils
 //@ func Clone(schema)
 //@   aspect safe
 //@   modifies nothing
-//@   ensures result != nil
+//@   ensures result != nil && fresh(result)
